@@ -476,7 +476,9 @@ class Prop:
                         stats["itraits"] += 1
                 elif k == "add_trait":
                     n = "extra%d" % op["n"]
-                    if n not in target["extras"]:
+                    # (not over a plain attribute that a clone inherited under this name:
+                    # add_trait leaves a value that is stored already where it is)
+                    if n not in target["extras"] and n not in target.get("extras_plain", ()):
                         what = op.get("what", "int")
                         if what == "list":
                             # a container trait: add_trait also adds <name>_items
